@@ -112,6 +112,9 @@ func TestVerifC01(t *testing.T) {
 	roots := []string{vBundledRoot}
 	if g := vGenRoot(); g != "" {
 		roots = append(roots, g)
+		if x := vGenExtraRoot(); x != "" {
+			roots = append(roots, x) // trex/tfhd mismatch on video, two video grids
+		}
 	}
 	var cfgs []c01Cfg
 	for _, root := range roots {
@@ -171,7 +174,9 @@ func c01RunCfg(rep *vh.Report, c c01Cfg, quick bool) {
 	}
 	a, _ := vAsset(c.root, c.asset)
 	if _, served := srv.assetMgr.assets[c.asset]; !served {
-		rep.Note("asset %s is not served (left out at load)", c.asset)
+		// the reference reads this asset as a valid VoD asset with an exact loop: nothing of its
+		// timeline is served at all
+		rep.Violate("C01.a", "asset-not-served", fmt.Sprintf("asset %s is a valid VoD asset for the reference model but the server left it out at load", c.asset), map[string]any{"asset": c.asset})
 		return
 	}
 	r := a.Reps[c.rep]
